@@ -98,7 +98,7 @@ func TestGoFilesParse(t *testing.T) {
 func TestPyBudgetAndUniqueness(t *testing.T) {
 	for i := 0; i < 2000; i++ {
 		m := GenPy(run.CaseRand("C20", 7, i), "x.py", false, 0)
-		if m.LexEvents > PySmallBudget {
+		if m.LexEvents > PySmallBudget+1 || (!m.LongLine && m.LexEvents > PySmallBudget) {
 			t.Fatalf("case %d: small module has %d lexer events\n%s", i, m.LexEvents, m.Text)
 		}
 		if m2 := GenPy(run.CaseRand("C20", 7, i), "x.py", false, 0); m2.Text != m.Text {
@@ -194,7 +194,7 @@ func TestShareNames(t *testing.T) {
 				t.Fatalf("case %d: shared name %s not in both modules", i, n)
 			}
 		}
-		if pa.LexEvents > PySmallBudget || pb.LexEvents > PySmallBudget {
+		if pa.LexEvents > PySmallBudget+1 || pb.LexEvents > PySmallBudget+1 {
 			t.Fatalf("case %d: sharing changed the lexer budget", i)
 		}
 	}
